@@ -4,10 +4,12 @@ import (
 	"bytes"
 	"compress/gzip"
 	"context"
+	"crypto/sha1"
 	"encoding/base64"
 	"encoding/json"
 	"fmt"
 	"io"
+	"sort"
 	"strconv"
 	"strings"
 	"time"
@@ -115,9 +117,43 @@ func NewEnv(lib ChartLib, drv string) *Env {
 		e.mem.SetNamespace(RelNS)
 	}
 	e.Sim.Put(simcluster.Key{Group: "", Version: "v1", Resource: "namespaces", Name: RelNS}, map[string]interface{}{"metadata": map[string]interface{}{}})
+	e.seedForeign()
 	e.Rec = NewRecorder(e.Snapshot)
 	e.Sim.Hook = e.hook
 	return e
+}
+
+// ForeignNames are other releases living in the same namespace and storage: one whose name extends the
+// release name and one that is a prefix of it.
+var ForeignNames = []string{RelName + "2", RelName[:2]}
+
+// seedForeign stores a short history (revision 1 superseded, revision 2 deployed) for each foreign release,
+// through the raw driver and outside any recorded operation.
+func (e *Env) seedForeign() {
+	d := e.rawDriver(-1)
+	for _, n := range ForeignNames {
+		for v, st := range []rspb.Status{rspb.StatusSuperseded, rspb.StatusDeployed} {
+			r := &rspb.Release{Name: n, Namespace: RelNS, Version: v + 1, Manifest: "# foreign\n",
+				Info: &rspb.Info{Status: st, Description: "foreign"}}
+			if err := d.Create(fmt.Sprintf("sh.helm.release.v1.%s.v%d", n, v+1), r); err != nil {
+				panic("harness: cannot seed foreign release: " + err.Error())
+			}
+		}
+	}
+}
+
+func nameOfKey(key string) string {
+	k := strings.TrimPrefix(key, "sh.helm.release.v1.")
+	if i := strings.LastIndex(k, ".v"); i >= 0 {
+		return k[:i]
+	}
+	return k
+}
+
+func foreignDigest(parts []string) string {
+	sort.Strings(parts)
+	h := sha1.Sum([]byte(strings.Join(parts, "\n")))
+	return fmt.Sprintf("%d:%x", len(parts), h[:6])
 }
 
 // hook makes every non-storage HTTP request of a planned operation a visible call.
@@ -207,10 +243,23 @@ func (e *Env) Snapshot() *State {
 	if e.Driver == "memory" {
 		rels, _ := e.mem.Query(map[string]string{"name": RelName, "owner": "helm"})
 		st.Store = ProjectStore(rels, nil)
+		all, _ := e.mem.List(func(r *rspb.Release) bool { return r.Name != RelName })
+		parts := []string{}
+		for _, r := range all {
+			b, _ := json.Marshal(r)
+			parts = append(parts, string(b))
+		}
+		st.Foreign = foreignDigest(parts)
 		return st
 	}
+	foreign := []string{}
 	for k, o := range e.Sim.Snapshot() {
 		if !simcluster.IsReleaseRecordName(k.Name) {
+			continue
+		}
+		if nameOfKey(k.Name) != RelName {
+			b, _ := json.Marshal(o)
+			foreign = append(foreign, k.Resource+"/"+k.Name+"="+string(b))
 			continue
 		}
 		var data string
@@ -231,6 +280,7 @@ func (e *Env) Snapshot() *State {
 		rec.Label = str(nested(o, "metadata", "labels", "status"))
 		st.Store[rev] = rec
 	}
+	st.Foreign = foreignDigest(foreign)
 	return st
 }
 
